@@ -8,7 +8,7 @@ MODULE = "GoNfsd.Props.C15"
 
 def sizes_args(ctx):
     if ctx.tier == "thorough":
-        return ["-from", "1400", "-to", "40000", "-around", ",".join(str(32768 * k) for k in range(1, 9))]
+        return ["-usefree", "8", "-from", "1400", "-to", "40000", "-around", ",".join(str(32768 * k) for k in range(1, 9))]
     return ["-from", "1530", "-to", "1950", "-around", "32768,65536,98304,131072"]
 
 
@@ -78,7 +78,10 @@ def run(ctx):
         "the hand-written format and allocator models are tied to the code by correspondence on every size of a dense range",
         "every disk size of the range is formatted by the real nfs.makeFs on a sparse disk; layout values, all bitmap "
         "bits (as runs) and the allocator's exhaustion behaviour are compared with the Lean model; a size is "
-        "non-trivial when the real code accepts it; allocator sequences: random alloc/free/numfree on random bitmaps",
+        "non-trivial when the real code accepts it; allocator sequences: random alloc/free/numfree on random bitmaps; "
+        "use-and-free oracle: on a running server of each size a 3-block file is written and removed with the allocator's roving "
+        "pointer placed at the first and last data block and on both sides of every bitmap-block boundary: the on-disk bitmap "
+        "gains exactly three free data blocks and returns to what it was, the free count too, and nothing panics",
         ["uint64 layout arithmetic read over Nat (theorem layout_no_overflow covers sizes < 2^50)",
          "bit bn of a bitmap block stands for byte bn/8, bit bn%8"],
         pending=PENDING, partial=[])
